@@ -91,29 +91,30 @@ def verify(prop, v):
     return res
 
 def detect(sid, checks):
+    """Runs the checks against a scratch worktree of /repo with the seeded patch applied, using a
+    private snapshot of the framework: neither /repo nor /verif/evidence is touched."""
     dst = "/verif/seeded/%s" % sid
     meta = json.load(open(dst + "/meta.json"))
     if not checks:
         checks = [meta["breaks_property"]]
-    rc, out = sh("git -C /repo status --short")
-    assert out.strip() == "", "/repo is dirty: " + out
-    rc, out = sh("git -C /repo apply %s/patch.diff" % dst)
+    wt = "/tmp/sv/det-%s" % sid
+    sh("git -C /repo worktree remove --force %s" % wt)
+    os.makedirs("/tmp/sv", exist_ok=True)
+    rc, out = sh("git -C /repo worktree add -q --detach %s HEAD" % wt)
     assert rc == 0, out
     try:
+        rc, out = sh("git apply %s/patch.diff" % dst, cwd=wt)
+        assert rc == 0, out
         for c in checks:
             t0 = time.time()
-            rc, out = sh("./run.sh %s quick" % c, cwd="/verif", timeout=3600)
+            rc, out = sh("VERIF_SNAPSHOT=1 VERIF_REPO=%s ./run.sh %s quick" % (wt, c), cwd="/verif", timeout=3600)
             viol = [l for l in out.splitlines() if l.startswith("VIOLATION")]
             diags = [l.strip() for l in out.splitlines() if l.strip().startswith("diagnostic:")]
             meta["detected_by"][c] = {"exit": rc, "violations_printed": len(viol), "first_diagnostics": diags[:3], "wall_s": round(time.time() - t0)}
             print(sid, c, "exit", rc, len(viol), "violations", diags[:2])
     finally:
-        sh("git -C /repo checkout -- .")
-        sh("git -C /repo clean -fdq -- pkg internal main.go")
-        shutil.rmtree("/verif/replays", ignore_errors=True)
+        sh("git -C /repo worktree remove --force %s" % wt)
     json.dump(meta, open(dst + "/meta.json", "w"), indent=1)
-    # evidence files were rewritten by runs on a modified tree: restore the committed ones
-    sh("git checkout -- evidence", cwd="/verif")
 
 if __name__ == "__main__":
     if sys.argv[1] == "verify":
